@@ -29,10 +29,14 @@ func main() {
 	hx.Main()
 }
 
+type lcInc struct {
+	Kind string `json:"kind"`
+	At   string `json:"at"`
+}
 type lcProg struct {
 	Main  string   `json:"main"`
 	Diags []string `json:"diags"`
-	Inc   string   `json:"inc"`
+	Incs  []lcInc  `json:"incs"`
 }
 type lcFlags struct {
 	Json      bool   `json:"json"`
@@ -95,16 +99,51 @@ func has(p lcProg, k string) bool {
 	return false
 }
 
+// moduleFiles writes the module(s) of the i-th include statement and tells whether main may call its subroutine
+func moduleFiles(f map[string]string, i int, inc lcInc) {
+	name := fmt.Sprintf("mod%d", i)
+	good := fmt.Sprintf("set req.http.M%d = \"1\";", i)
+	diag := fmt.Sprintf("set req.http.M%d = std.itoa(0, 1, 2);", i)
+	wrap := func(stmt string) string {
+		if inc.At == "root" {
+			return fmt.Sprintf("sub %s_recv {\n  %s\n}\n", name, stmt)
+		}
+		return stmt + "\n"
+	}
+	switch inc.Kind {
+	case "ok":
+		f[name+".vcl"] = wrap(good)
+	case "diag":
+		f[name+".vcl"] = wrap(diag)
+	case "syntax":
+		f[name+".vcl"] = wrap("set = ;")
+	case "nest":
+		f[name+".vcl"] = fmt.Sprintf("include \"%s_inner\";\n", name) + wrap(good)
+		if inc.At == "root" {
+			f[name+"_inner.vcl"] = fmt.Sprintf("sub %s_inner {\n  set = ;\n}\n", name)
+		} else {
+			f[name+"_inner.vcl"] = "set = ;\n"
+		}
+	}
+}
+
 func files(p lcProg) map[string]string {
 	f := map[string]string{}
 	var b strings.Builder
+	for i, inc := range p.Incs {
+		moduleFiles(f, i+1, inc)
+	}
+	rootIncludes := func() {
+		for i, inc := range p.Incs {
+			if inc.At == "root" {
+				fmt.Fprintf(&b, "include \"mod%d\";\n", i+1)
+			}
+		}
+	}
 	switch p.Main {
 	case "syntax":
 		b.WriteString("backend example { .host = \"example.com\"; }\n")
-		if p.Inc != "none" {
-			b.WriteString("include \"mod\";\n")
-			f["mod.vcl"] = "sub mod_recv {\n  set req.http.M = \"1\";\n}\n"
-		}
+		rootIncludes()
 		b.WriteString("sub vcl_recv {\n  #FASTLY RECV\n  set req.http.a = ;\n}\n")
 	case "snip_scope", "snip_noscope":
 		if p.Main == "snip_scope" {
@@ -119,16 +158,18 @@ func files(p lcProg) map[string]string {
 		}
 	default:
 		b.WriteString("backend example { .host = \"example.com\"; }\n")
-		if p.Inc != "none" {
-			b.WriteString("include \"mod\";\n")
-		}
+		rootIncludes()
 		b.WriteString("sub vcl_recv {\n")
 		if !has(p, "W") {
 			b.WriteString("  #FASTLY RECV\n")
 		}
 		b.WriteString("  set req.backend = example;\n")
-		if p.Inc == "ok" || p.Inc == "diag" || p.Inc == "syntax" {
-			b.WriteString("  call mod_recv;\n")
+		for i, inc := range p.Incs {
+			// the subroutine of a root-level module is called so that it is not reported as unused;
+			// nothing of a module that does not parse is referenced
+			if inc.At == "root" && (inc.Kind == "ok" || inc.Kind == "diag" || inc.Kind == "nest") {
+				fmt.Fprintf(&b, "  call mod%d_recv;\n", i+1)
+			}
 		}
 		if has(p, "E") {
 			b.WriteString("  set req.http.X = std.itoa(0, 1, 2);\n")
@@ -139,15 +180,16 @@ func files(p lcProg) map[string]string {
 		if has(p, "I") {
 			b.WriteString("  if (req.http.E) { error 900; }\n")
 		}
-		b.WriteString("  return (lookup);\n}\n")
-		switch p.Inc {
-		case "ok":
-			f["mod.vcl"] = "sub mod_recv {\n  set req.http.M = \"1\";\n}\n"
-		case "diag":
-			f["mod.vcl"] = "sub mod_recv {\n  set req.http.M = std.itoa(0, 1, 2);\n}\n"
-		case "syntax":
-			f["mod.vcl"] = "sub mod_recv {\n  set = ;\n}\n"
+		for i, inc := range p.Incs {
+			if inc.At == "sub" {
+				fmt.Fprintf(&b, "  include \"mod%d\";\n", i+1)
+			}
 		}
+		b.WriteString("}\nsub vcl_deliver {\n")
+		if !has(p, "W") {
+			b.WriteString("  #FASTLY DELIVER\n")
+		}
+		b.WriteString("}\n")
 	}
 	f["main.vcl"] = b.String()
 	return f
@@ -331,7 +373,7 @@ func contract(falco string, c *lcCell) string {
 		return r
 	}
 	res := ""
-	if c.Prog.Main != "syntax" && !(c.Prog.Main == "vcl" && c.Prog.Inc == "syntax") {
+	if c.ReqCountsDefined {
 		plain := lcCell{Prog: c.Prog, Ov: map[string]string{}, Flags: lcFlags{Json: true, Verb: 2, Vsrc: "cli"}}
 		dir, err := setup(&plain, rand.New(rand.NewSource(1)))
 		if err == nil {
@@ -381,8 +423,8 @@ func c04Replay(argv []string) int {
 		progKey, _ := json.Marshal(c.Prog)
 		ovKey, _ := json.Marshal(c.Ov)
 		res.Key = string(progKey) + string(ovKey) + fmt.Sprint(c.Flags)
-		res.Class = map[string]any{"main": c.Prog.Main, "inc": c.Prog.Inc, "json": c.Flags.Json, "verb": c.Flags.Verb,
-			"vsrc": c.Flags.Vsrc, "generated": c.Flags.Generated, "syntax_error": c.Prog.Main == "syntax" || (c.Prog.Main == "vcl" && c.Prog.Inc == "syntax")}
+		res.Class = map[string]any{"main": c.Prog.Main, "incs": fmt.Sprint(c.Prog.Incs), "json": c.Flags.Json, "verb": c.Flags.Verb,
+			"vsrc": c.Flags.Vsrc, "generated": c.Flags.Generated, "syntax_error": !c.ReqCountsDefined}
 		if *contractOnly {
 			if msg := contract(*falco, &c); msg != "" {
 				res.Mismatch = append(res.Mismatch, map[string]any{"obs": "concretiser-contract", "detail": msg})
